@@ -242,6 +242,9 @@ func report(v *Verifier, prop, tier string, seed int64, verifDir string, reports
 				} else {
 					vac["canaries_ok"]++
 				}
+				if r.Answer != "sat" {
+					vac["undecided"]++
+				}
 			} else {
 				vac["failed"]++
 			}
